@@ -1,7 +1,164 @@
-// Schedule controller (C11/C12): filled in later.
-use std::sync::Mutex;
+// Schedule controller (C11/C12): runs the calls of several threads against the real library and
+// decides, through the verif sync hook, which thread wins each acquisition of the config mutex.
+use std::cell::Cell;
+use std::sync::{Condvar, Mutex};
+
+use updater::verif::{verif_set_sync_hook, SyncEvent};
+
+use crate::replay::World;
+
 pub static NET_HOOK: Mutex<Option<fn(&str)>> = Mutex::new(None);
+
+const MAXT: usize = 4;
+
+#[derive(Default)]
+struct State {
+    active: bool,
+    parked: [bool; MAXT],
+    finished: [bool; MAXT],
+    granted: Option<usize>,
+    releases: [u64; MAXT],
+    trace: Vec<String>,
+    parked_upd: [bool; MAXT],
+    upd_holder: Option<usize>,
+}
+
+static STATE: Mutex<State> = Mutex::new(State {
+    active: false,
+    parked: [false; MAXT],
+    finished: [false; MAXT],
+    granted: None,
+    releases: [0; MAXT],
+    trace: Vec::new(),
+    parked_upd: [false; MAXT],
+    upd_holder: None,
+});
+static CV: Condvar = Condvar::new();
+
+thread_local! {
+    static IDX: Cell<Option<usize>> = Cell::new(None);
+}
+
+fn hook(ev: SyncEvent) {
+    let Some(i) = IDX.with(|c| c.get()) else {
+        return;
+    };
+    let mut st = STATE.lock().unwrap();
+    if !st.active {
+        return;
+    }
+    match ev {
+        SyncEvent::CfgBefore | SyncEvent::UpdBefore => {
+            st.trace.push(format!("{}:{}", i, if ev == SyncEvent::UpdBefore { "wantupd" } else { "want" }));
+            st.parked[i] = true;
+            st.parked_upd[i] = ev == SyncEvent::UpdBefore;
+            CV.notify_all();
+            while st.active && st.granted != Some(i) {
+                st = CV.wait(st).unwrap();
+            }
+            st.parked[i] = false;
+            st.granted = None;
+        }
+        SyncEvent::CfgAcquired => st.trace.push(format!("{}:acq", i)),
+        SyncEvent::CfgRelease => {
+            st.trace.push(format!("{}:rel", i));
+            st.releases[i] += 1;
+            CV.notify_all();
+        }
+        SyncEvent::UpdTry(ok) => {
+            // the try_lock is the "critical section" of this scheduling slot
+            st.trace.push(format!("{}:try{}", i, ok));
+            if ok {
+                st.upd_holder = Some(i);
+            }
+            st.releases[i] += 1;
+            CV.notify_all();
+        }
+        SyncEvent::UpdRelease => {
+            st.trace.push(format!("{}:relupd", i));
+            if st.upd_holder == Some(i) {
+                st.upd_holder = None;
+            }
+            CV.notify_all();
+        }
+    }
+}
+
+/// Runs `threads[i]` (each a list of tokenised API ops) concurrently; `order` lists which thread
+/// wins each successive acquisition of the config mutex. Returns the outputs, threads separated
+/// by '|', calls by ','.
+pub fn run(w: &World, threads: Vec<Vec<Vec<String>>>, order: &[usize]) -> String {
+    let n = threads.len();
+    assert!(n <= MAXT);
+    {
+        let mut st = STATE.lock().unwrap();
+        *st = State::default();
+        st.active = true;
+    }
+    verif_set_sync_hook(Some(hook));
+    let outs: Vec<String> = std::thread::scope(|s| {
+        let mut handles = vec![];
+        for (i, ops) in threads.iter().enumerate() {
+            handles.push(s.spawn(move || {
+                IDX.with(|c| c.set(Some(i)));
+                let mut o = vec![];
+                for op in ops {
+                    let toks: Vec<&str> = op.iter().map(|x| x.as_str()).collect();
+                    o.push(w.exec_api(&toks));
+                }
+                let mut st = STATE.lock().unwrap();
+                st.finished[i] = true;
+                CV.notify_all();
+                o.join(",")
+            }));
+        }
+        // the scheduler
+        for &t in order {
+            if t >= n {
+                continue;
+            }
+            let mut st = STATE.lock().unwrap();
+            while !st.parked[t] && !st.finished[t] {
+                st = CV.wait(st).unwrap();
+            }
+            if st.finished[t] {
+                continue;
+            }
+            if st.parked_upd[t] {
+                // a try_lock races with the holder's return path: wait until the holder either is
+                // demonstrably still inside its update (parked at its next lock) or has let go
+                loop {
+                    match st.upd_holder {
+                        Some(h) if h != t && !st.parked[h] && !st.finished[h] => {
+                            st = CV.wait(st).unwrap();
+                        }
+                        _ => break,
+                    }
+                }
+            }
+            let before = st.releases[t];
+            st.granted = Some(t);
+            CV.notify_all();
+            while st.releases[t] == before && !st.finished[t] {
+                st = CV.wait(st).unwrap();
+            }
+        }
+        {
+            let mut st = STATE.lock().unwrap();
+            st.active = false;
+            CV.notify_all();
+        }
+        handles.into_iter().map(|h| h.join().unwrap()).collect()
+    });
+    verif_set_sync_hook(None);
+    outs.join("|")
+}
+
+pub fn take_trace() -> Vec<String> {
+    std::mem::take(&mut STATE.lock().unwrap().trace)
+}
+
 pub fn main(_args: &[String]) -> i32 {
-    eprintln!("sched: not built yet");
+    eprintln!("sched: use `replay` with t0/t1/order lines");
     2
 }
